@@ -139,6 +139,14 @@ def search(chk, broken):
         idx = {}
         for i, r in enumerate(rows):
             idx.setdefault(id(r), i)
+        # explicit quantities are passed below, so the preferred units (display settings) must not matter: change them between hits
+        if rng.random() < 0.5:
+            DU = [U.Inch, U.Centimeter, U.Foot, U.Meter, U.Yard, U.Millimeter]
+            pbc.PreferredUnits.drop, pbc.PreferredUnits.distance = rng.choice(DU), rng.choice(DU)
+            pbc.PreferredUnits.target_height = rng.choice(DU)
+        else:
+            pbc.PreferredUnits.defaults()
+        prefs = f'preferred drop={pbc.PreferredUnits.drop.name} distance={pbc.PreferredUnits.distance.name} target_height={pbc.PreferredUnits.target_height.name}'
         for _ in range(3):
             at = U.Foot(rng.uniform(0, (rows[-1].distance >> U.Foot) * 1.1))
             h1, h2 = sorted([rng.uniform(0, 30), rng.uniform(0, 300)])
@@ -173,12 +181,13 @@ def search(chk, broken):
                         bad = f'end row {e} is neither the last row nor {half} in away'
                 if bad:
                     branch = 'rising' if a + 1 < len(rows) and rows[a + 1].target_drop.raw_value > c else 'falling'
-                    chk.failures.append(Failure(f'inside:{branch}', f'target at {at >> U.Foot:.1f} ft ({branch} branch), height {h:.2f} in: {bad}',
-                                                {'op': 'danger', 'at_ft': at >> U.Foot, 'height_in': h,
+                    chk.failures.append(Failure(f'inside:{branch}', f'target at {at >> U.Foot:.1f} ft ({branch} branch), height {h:.2f} in, {prefs}: {bad}',
+                                                {'op': 'danger', 'preferred': prefs, 'at_ft': at >> U.Foot, 'height_in': h,
                                                  'rows': [[r.distance >> U.Foot, r.target_drop.raw_value] for r in rows][:80],
                                                  'observed': [b, a, e]}))
             b1, e1, b2, e2 = idx[id(d1.begin)], idx[id(d1.end)], idx[id(d2.begin)], idx[id(d2.end)]
             if not (b2 <= b1 and e1 <= e2):
                 chk.failures.append(Failure('monotone-height', f'height {h1:.2f} -> {h2:.2f} in shrinks the danger space ({b1},{e1}) -> ({b2},{e2})',
                                             {'op': 'danger-monotone', 'at_ft': at >> U.Foot, 'h1': h1, 'h2': h2}))
+    pbc.PreferredUnits.defaults()
     chk.search_evals += evals
